@@ -28,6 +28,37 @@ inductive Json where
   | obj (kvs : List (String × Json))
   deriving Repr, Inhabited
 
+/-! ## Go's generic value (`any` filled by the decoder: `map[string]any`, `[]any`, …) -/
+
+/-- Go map semantics for object members: the last duplicate wins -/
+def dedupeLast : List (String × Json) → List (String × Json)
+  | [] => []
+  | kv :: r => if r.any (fun x => x.1 == kv.1) then dedupeLast r else kv :: dedupeLast r
+
+/-- `json.Marshal` writes map members sorted by key (byte order = code point order) -/
+def insertMember (kv : String × Json) : List (String × Json) → List (String × Json)
+  | [] => [kv]
+  | x :: r => if kv.1 < x.1 then kv :: x :: r else x :: insertMember kv r
+
+def sortMembers (kvs : List (String × Json)) : List (String × Json) :=
+  kvs.foldr insertMember []
+
+mutual
+/-- A JSON value stored in a Go `any` and marshalled again: objects are `map[string]any`, so
+duplicate members collapse (the last wins) and `json.Marshal` writes them sorted by key.
+`Request.Params`, `Request.ID` and everything below them are such values. -/
+def canon : Json → Json
+  | .arr xs => .arr (canonList xs)
+  | .obj kvs => .obj (sortMembers (dedupeLast (canonMembers kvs)))
+  | j => j
+def canonList : List Json → List Json
+  | [] => []
+  | x :: xs => canon x :: canonList xs
+def canonMembers : List (String × Json) → List (String × Json)
+  | [] => []
+  | (k, v) :: r => (k, canon v) :: canonMembers r
+end
+
 /-! ## Configuration: behaviours of server.go that the proposed fixes switch -/
 
 structure Config where
@@ -102,11 +133,12 @@ def storeString (old : String) (v : Json) : String × Bool :=
   | .null => (old, false)
   | _ => (old, true)
 
-/-- Store a JSON value into an `any` field: `null` makes the interface nil. -/
+/-- Store a JSON value into an `any` field: `null` makes the interface nil, everything else
+becomes the generic Go value. -/
 def storeAny (v : Json) : Option Json :=
   match v with
   | .null => none
-  | v => some v
+  | v => some (canon v)
 
 def stepField (st : DecState) (kv : String × Json) : DecState :=
   match fieldOf kv.1 with
